@@ -32,6 +32,15 @@ var c9Factories = []struct {
 // every op id this process has observed on any context (callers' and handlers')
 var c9Seen = map[string]bool{}
 
+// wireTimeout: what a timeout is at the resolution of the `_timeout` header (whole milliseconds, truncated
+// toward zero; a positive duration below 1 ms is carried as 1 ms since fix 6fdb59c — 0 would mean "no deadline").
+func wireTimeout(d time.Duration) time.Duration {
+	if d > 0 && d < time.Millisecond {
+		return time.Millisecond
+	}
+	return d / time.Millisecond * time.Millisecond
+}
+
 func c9Reserved(k string) bool { return k == "_opid" || k == "_cid" || k == "_timeout" }
 
 func c9UserHeaders(r *Rng) map[string]string {
@@ -322,7 +331,7 @@ func c9Call(r *Rng) {
 	for _, k := range sortedKeys(over) {
 		ctx.AddRequestHeader(k, over[k])
 	}
-	wantTimeout := d / time.Millisecond * time.Millisecond
+	wantTimeout := wireTimeout(d)
 	H := ctx.RequestHeaders()
 	clientOp := H["_opid"]
 	cid := ctx.CorrelationID()
@@ -724,7 +733,7 @@ func init() {
 			reserved = reserved || c9Reserved(k)
 		}
 		if len(over) == 0 && !reserved {
-			ok = len(H) == len(U)+3 && ctx.CorrelationID() == cid && ctx.Timeout() == time.Duration(ns)/time.Millisecond*time.Millisecond
+			ok = len(H) == len(U)+3 && ctx.CorrelationID() == cid && ctx.Timeout() == wireTimeout(time.Duration(ns))
 			for k, v := range U {
 				ok = ok && H[k] == v
 			}
